@@ -187,6 +187,128 @@ def isTargetTree : DTree :=
 /-- the skeleton as a function of the valuation -/
 def isTargetAtoms (v : Val) : DT.Res := eval isTargetTree v
 
+/-! ## readings the property text leaves open
+
+C10: "… whose confidence (estimates) or point count and uuid (ground truth) satisfy that label's thresholds, with the
+documented relaxations: false-positive-labelled objects always pass and unknown-labelled estimates are judged against the
+mean bounds when unknown is not a target." The text does not say
+* whether a GROUND TRUTH's own confidence is compared with the confidence threshold (`gtConf`; today's code: yes),
+* whether `target_labels == []` means "no label criterion" or "nothing is targeted" (`emptyAll`; today: no criterion),
+* whether the confidence bound of a relaxed unknown estimate is 0 or the mean of the list (`relaxedMean`; today: 0).
+`isTargetTreeR r` is the skeleton under reading `r`; `isTargetTreeR today = isTargetTree` by `rfl`. The per-run obligation
+(`Properties/C10.lean`) asks the code's table to equal the skeleton of ONE of the eight readings; which exception CLASS a
+rejected input raises is not compared either (`canonRes`: the translator records every exception as `raise:Rejected`). -/
+
+structure Reading where
+  gtConf : Bool
+  emptyAll : Bool
+  relaxedMean : Bool
+deriving DecidableEq, Repr
+
+def today : Reading := ⟨true, true, false⟩
+
+def readings : List Reading :=
+  [today, ⟨false, true, false⟩, ⟨true, false, false⟩, ⟨true, true, true⟩, ⟨false, false, false⟩, ⟨false, true, true⟩,
+   ⟨true, false, true⟩, ⟨false, false, true⟩]
+
+/-- `cmp(mean(conf)|score)`: only read under `relaxedMean` -/
+def cConfMean : Nat := 20
+
+/-- the one code of "the input is rejected with an exception" (`EXC_CODE` in harness/dt_c10.py) -/
+def eRejected : Nat := 0
+
+def canonRes : DT.Res → DT.Res
+  | .raise _ => .raise eRejected
+  | r => r
+
+def mapRes (f : DT.Res → DT.Res) : DTree → DTree
+  | .leaf r => .leaf (f r)
+  | .bnode a n y => .bnode a (mapRes f n) (mapRes f y)
+  | .cnode a l e g => .cnode a (mapRes f l) (mapRes f e) (mapRes f g)
+
+theorem eval_mapRes (f : DT.Res → DT.Res) (t : DTree) (v : Val) : eval (mapRes f t) v = f (eval t v) := by
+  induction t with
+  | leaf r => rfl
+  | bnode a n y ihn ihy => simp only [mapRes, eval]; cases v.b a <;> simp [ihn, ihy]
+  | cnode a l e g ihl ihe ihg => simp only [mapRes, eval]; cases v.c a <;> simp [ihl, ihe, ihg]
+
+/-- `stageLabel` under a reading -/
+def tLabelR (r : Reading) (u : Bool) (k : Bool → DTree) : DTree :=
+  askB aTargetsNone fun tn => if tn then k true else
+  if r.emptyAll then
+    askB aTargetsEmpty fun te => if te then k true else
+    if u then k true else askB aLabelIn fun li => k li
+  else
+    if u then k true else askB aLabelIn fun li => k li
+
+/-- the confidence stage under a reading -/
+def tConfR (r : Reading) (u ok : Bool) (k : Bool → DTree) : DTree :=
+  let st : DTree :=
+    if r.relaxedMean then tStage u ok laConf cConf cConfMean true (· == .lt) k
+    else tStage u ok laConf cConf cConf0 false (· == .lt) k
+  if r.gtConf then st else
+  if !ok then k ok else askB aIsGt fun g => if g then k ok else st
+
+/-- substitute trees for the leaves of a tree -/
+def bindT : DTree → (DT.Res → DTree) → DTree
+  | .leaf r, f => f r
+  | .bnode a n y, f => .bnode a (bindT n f) (bindT y f)
+  | .cnode a l e g, f => .cnode a (bindT l f) (bindT e f) (bindT g f)
+
+theorem eval_bindT (t : DTree) (f : DT.Res → DTree) (v : Val) : eval (bindT t f) v = eval (f (eval t v)) v := by
+  induction t with
+  | leaf r => rfl
+  | bnode a n y ihn ihy => simp only [bindT, eval]; cases v.b a <;> simp [ihn, ihy]
+  | cnode a l e g ihl ihe ihg => simp only [bindT, eval]; cases v.c a <;> simp [ihl, ihe, ihg]
+
+/-- what the head hands to the tail: `use_unknown_threshold` and `is_target` after the confidence stage -/
+def encUO (u ok : Bool) : DT.Res := .other ((if u then 2 else 0) + (if ok then 1 else 0))
+
+/-- the stages on which the readings differ (label, attributes, confidence); the leaves are the final results reached
+there (`ret true` of an FP label, the exceptions of the confidence stage) or `encUO u ok2` -/
+def headR (r : Reading) : DTree :=
+  askB aFp fun fp => if fp then .leaf (.ret true) else
+  tUse fun u =>
+  tLabelR r u fun ok0 =>
+  tAttr u ok0 fun ok1 =>
+  tConfR r u ok1 fun ok2 => .leaf (encUO u ok2)
+
+/-- the stages common to all readings (position, ranges, point count, uuid) -/
+def tailT (u ok2 : Bool) : DTree :=
+  tPosition fun pos =>
+  tRange u ok2 pos fun ok3 =>
+  tUuid ok3 fun ok4 => .leaf (.ret ok4)
+
+def tailOf : DT.Res → DTree
+  | .other 0 => tailT false false
+  | .other 1 => tailT false true
+  | .other 2 => tailT true false
+  | .other 3 => tailT true true
+  | r => .leaf r
+
+/-- `_is_target_object` over the atoms under a reading of the open points -/
+def isTargetTreeR (r : Reading) : DTree := bindT (headR r) tailOf
+
+/-- the valuations on which the readings part ways (an OVER-approximation, as conjunctions of atom values):
+ground truth with a confidence list whose comparison fails or whose per-label entry is missing; an empty target list;
+a relaxed unknown estimate for which 0 and the mean of the confidence list decide differently -/
+def openValuations : List (List Lit) :=
+  [[.b aIsGt true, .b laConf.none false, .c cConf .eq],
+   [.b aIsGt true, .b laConf.none false, .c cConf .gt],
+   [.b aIsGt true, .b laConf.none false, .b aTargetsNone true],
+   [.b aIsGt true, .b laConf.none false, .b laConf.short true],
+   [.b aTargetsEmpty true],
+   [.b aUnknown true, .b aIsGt false, .b laConf.none false, .c cConf0 .lt, .b laConf.empty true],
+   [.b aUnknown true, .b aIsGt false, .b laConf.none false, .c cConf0 .lt, .c cConfMean .eq],
+   [.b aUnknown true, .b aIsGt false, .b laConf.none false, .c cConf0 .lt, .c cConfMean .gt],
+   [.b aUnknown true, .b aIsGt false, .b laConf.none false, .c cConf0 .eq, .b laConf.empty false, .c cConfMean .lt],
+   [.b aUnknown true, .b aIsGt false, .b laConf.none false, .c cConf0 .gt, .b laConf.empty false, .c cConfMean .lt]]
+
+/-- atoms whose decisions the checker records when it compares two readings outside `openValuations` (every atom named
+there, plus the atoms a skeleton re-reads); the list is shared by Boolean and order atoms -/
+def openSticky : List Nat :=
+  [aIsGt, aTargetsNone, aLabelIn, aTargetsEmpty, aUnknown, laConf.none, laConf.short, laConf.empty, cConf, cConf0, cConfMean]
+
 /-! ## the atoms of a concrete model input -/
 
 def cmpR (a b : Rat) : Ordering := if a < b then .lt else if a = b then .eq else .gt
@@ -270,6 +392,7 @@ def valC (P : Params) (o : Obj) (a : Nat) : Ordering :=
   match a with
   | 0 => cmpR (entryR P o P.conf) o.score
   | 1 => cmpR 0 o.score
+  | 20 => cmpR (meanR P.conf) o.score
   | 18 => cmpI (o.pcNum.getD 0) (entryI P o P.minPts)
   | 19 => cmpI 0 (o.pcNum.getD 0)
   | a => if 2 ≤ a ∧ a < 10 then valCPos P o false (a - 2) else if 10 ≤ a ∧ a < 18 then valCPos P o true (a - 10) else .eq
